@@ -1,12 +1,13 @@
 /-
   C02 (CIE family) — each directly implemented conversion equals the published definition, at ℝ, on its nominal domain.
-  C01 (CIE family) — and the edge pairs are mutual inverses there.
+  (Xyz↔Yxy also carries its round trips; the other edge-pair inverses are in `C01_Cie.lean`.)
 -/
-import PaletteProofs.Real
+import PaletteProofs.RealAngle
 import PaletteModel.Color.Cie
 import PaletteSpec.Cie
 import Mathlib.Tactic.FieldSimp
 import Mathlib.Tactic.Linarith
+import Mathlib.Tactic.Positivity
 
 namespace C02Cie
 open Cie
@@ -66,4 +67,433 @@ theorem xyz_yxy_roundtrip (x y Y : ℝ) (hy : y ≠ 0) (hY : Y ≠ 0) : xyzToYxy
 /-- non-vacuity: D65 white satisfies the hypotheses -/
 example : (0.95047 : ℝ) + 1 + 1.08883 ≠ 0 ∧ (1 : ℝ) ≠ 0 := by norm_num
 
+
+/-! ### Xyz ↔ Lab -/
+
+theorem cube_eq (x : ℝ) : cube x = x ^ 3 := by unfold cube; ring
+theorem recip_eq (x : ℝ) : recip x = 1 / x := by unfold recip; norm_num
+
+theorem labF_hi {c : ℝ} (h : (6 / 29 : ℝ) ^ 3 < c) : labF c = c ^ ((1 : ℝ) / 3) := by
+  have hc : 0 ≤ c := le_of_lt (lt_trans (by norm_num) h)
+  unfold labF
+  simp only [cube_eq, RealScalar.const_eq, RealScalar.eval_div, RealScalar.eval_ofSci]
+  rw [if_pos (by norm_num at h ⊢; linarith), RealScalar.cbrt_of_nonneg hc]
+
+theorem labF_lo {c : ℝ} (h : ¬ (6 / 29 : ℝ) ^ 3 < c) : labF c = 841 / 108 * c + 4 / 29 := by
+  unfold labF
+  simp only [cube_eq, RealScalar.const_eq, RealScalar.eval_div, RealScalar.eval_ofSci]
+  rw [if_neg (by norm_num at h ⊢; linarith)]; norm_num
+
+/-- the code's `convert` closure is CIE 15's `f` (κ = 841/108 is `1/(3 (6/29)²)`) -/
+theorem labF_eq_spec (c : ℝ) : labF c = Spec.Cie.f c := by
+  unfold Spec.Cie.f
+  by_cases h : (6 / 29 : ℝ) ^ 3 < c
+  · rw [labF_hi h, if_pos h]
+  · rw [labF_lo h, if_neg h]; ring
+
+theorem labFInv_hi {c : ℝ} (h : (6 / 29 : ℝ) < c) : labFInv c = c ^ 3 := by
+  unfold labFInv
+  simp only [cube_eq, RealScalar.const_eq, RealScalar.eval_div, RealScalar.eval_ofSci]
+  rw [if_pos (by norm_num at h ⊢; linarith)]
+
+theorem labFInv_lo {c : ℝ} (h : ¬ (6 / 29 : ℝ) < c) : labFInv c = (c - 4 / 29) * (108 / 841) := by
+  unfold labFInv
+  simp only [cube_eq, RealScalar.const_eq, RealScalar.eval_div, RealScalar.eval_ofSci]
+  rw [if_neg (by norm_num at h ⊢; linarith)]; norm_num
+
+theorem labFInv_eq_spec (c : ℝ) : labFInv c = Spec.Cie.fInv c := by
+  unfold Spec.Cie.fInv
+  by_cases h : (6 / 29 : ℝ) < c
+  · rw [labFInv_hi h, if_pos h]
+  · rw [labFInv_lo h, if_neg h]; ring
+
+/-- **Xyz → Lab = CIE 15 §8.2.1**, for every XYZ and every white point (no domain restriction: also negative and
+    out-of-range tristimulus values take the published linear toe) -/
+theorem xyzToLab_eq_spec (Xn Yn Zn X Y Z : ℝ) :
+    xyzToLab ⟨Xn, Yn, Zn⟩ ⟨X, Y, Z⟩ =
+      ⟨(Spec.Cie.lab Xn Yn Zn X Y Z).1, (Spec.Cie.lab Xn Yn Zn X Y Z).2.1, (Spec.Cie.lab Xn Yn Zn X Y Z).2.2⟩ := by
+  unfold xyzToLab Spec.Cie.lab
+  simp only [labF_eq_spec]
+  congr 1 <;> sring
+
+/-- **Lab → Xyz = CIE 15 reverse transformation** (the code multiplies by reciprocals `1/116`, `1/500`, `1/200` and uses `108/841 = 3 (6/29)²`) -/
+theorem labToXyz_eq_spec (Xn Yn Zn L a b : ℝ) :
+    labToXyz ⟨Xn, Yn, Zn⟩ ⟨L, a, b⟩ =
+      ⟨(Spec.Cie.xyzOfLab Xn Yn Zn L a b).1, (Spec.Cie.xyzOfLab Xn Yn Zn L a b).2.1, (Spec.Cie.xyzOfLab Xn Yn Zn L a b).2.2⟩ := by
+  unfold labToXyz Spec.Cie.xyzOfLab
+  simp only [labFInv_eq_spec, recip_eq]
+  have e1 : (L + 16.0) * (1 / 116.0 : ℝ) = (L + 16) / 116 := by sring
+  have e2 : (L + 16.0) * (1 / 116.0 : ℝ) + a * (1 / 500.0) = (L + 16) / 116 + a / 500 := by sring
+  have e3 : (L + 16.0) * (1 / 116.0 : ℝ) - b * (1 / 200.0) = (L + 16) / 116 - b / 200 := by sring
+  rw [e2, e3, e1]
+  congr 1 <;> ring
+
+/-- the join of the piecewise definition is exact: both pieces give `6/29` at `t = (6/29)³` -/
+theorem lab_join : (841 / 108 : ℝ) * (6 / 29) ^ 3 + 4 / 29 = 6 / 29 ∧ (((6 / 29 : ℝ) ^ 3) ^ ((1 : ℝ) / 3)) = 6 / 29 := by
+  refine ⟨by norm_num, ?_⟩
+  rw [← Real.rpow_natCast, ← Real.rpow_mul (by norm_num)]; norm_num
+
+
+/-! ### cartesian ↔ polar: Lab ↔ Lch, Luv ↔ Lchuv -/
+
+/-- the stored hue at ℝ: `(π + arg(−a − b i)) · 180/π` -/
+theorem hueFromCartesian_eq (a b : ℝ) : hueFromCartesian a b = (Real.pi + Complex.arg (-(⟨a, b⟩ : ℂ))) * (180 / Real.pi) := by
+  unfold hueFromCartesian
+  simp only [RealScalar.radToDeg_eq, RealScalar.angle_pi, RealScalar.atan2_eq]
+  rfl
+
+/-- the stored hue always lies in `(0, 360]` (the code's reason for rotating by π) -/
+theorem hue_range (a b : ℝ) : 0 < hueFromCartesian a b ∧ hueFromCartesian a b ≤ 360 := by
+  rw [hueFromCartesian_eq]
+  have h1 := Complex.neg_pi_lt_arg (-(⟨a, b⟩ : ℂ))
+  have h2 := Complex.arg_le_pi (-(⟨a, b⟩ : ℂ))
+  have hp := Real.pi_pos
+  constructor
+  · apply mul_pos (by linarith) (by positivity)
+  · rw [← le_div_iff₀ (by positivity)]
+    have : (360 : ℝ) / (180 / Real.pi) = 2 * Real.pi := by field_simp; ring
+    rw [this]; linarith
+
+/-- **hue = CIE 15 hue angle** `atan2(b, a)` in degrees, upper half plane and negative real axis: equal -/
+theorem hue_eq_spec_of_pos (a b : ℝ) (h : 0 < b ∨ b = 0 ∧ a < 0) : hueFromCartesian a b = Spec.Cie.hueDeg a b := by
+  rw [hueFromCartesian_eq, Spec.Cie.hueDeg]
+  have := (Complex.arg_neg_eq_arg_sub_pi_iff (x := (⟨a, b⟩ : ℂ))).mpr h
+  rw [this]; have hp := Real.pi_ne_zero; field_simp; ring
+
+/-- lower half plane and positive real axis: the stored hue is the published angle `+ 360°` (same angle on the circle) -/
+theorem hue_eq_spec_of_neg (a b : ℝ) (h : b < 0 ∨ b = 0 ∧ 0 < a) : hueFromCartesian a b = Spec.Cie.hueDeg a b + 360 := by
+  rw [hueFromCartesian_eq, Spec.Cie.hueDeg]
+  have := (Complex.arg_neg_eq_arg_add_pi_iff (x := (⟨a, b⟩ : ℂ))).mpr h
+  rw [this]; have hp := Real.pi_ne_zero; field_simp; ring
+
+/-- **modulo 360**: for every non-zero `(a, b)` the stored hue is the published hue angle up to a whole turn -/
+theorem hue_eq_spec_mod (a b : ℝ) (h : a ≠ 0 ∨ b ≠ 0) : ∃ k : ℤ, hueFromCartesian a b = Spec.Cie.hueDeg a b + 360 * k := by
+  rcases lt_trichotomy b 0 with hb | hb | hb
+  · exact ⟨1, by rw [hue_eq_spec_of_neg a b (Or.inl hb)]; norm_num⟩
+  · rcases lt_trichotomy a 0 with ha | ha | ha
+    · exact ⟨0, by rw [hue_eq_spec_of_pos a b (Or.inr ⟨hb, ha⟩)]; norm_num⟩
+    · exact absurd hb (by rcases h with h | h; exact absurd ha h; exact h)
+    · exact ⟨1, by rw [hue_eq_spec_of_neg a b (Or.inr ⟨hb, ha⟩)]; norm_num⟩
+  · exact ⟨0, by rw [hue_eq_spec_of_pos a b (Or.inl hb)]; norm_num⟩
+
+/-- **Lab → Lch = CIE 15**: `L` unchanged, `C = √(a² + b²)`, hue as above -/
+theorem labToLch_eq_spec (L a b : ℝ) :
+    (labToLch ⟨L, a, b⟩).c0 = L ∧ (labToLch ⟨L, a, b⟩).c1 = Spec.Cie.chroma a b ∧ (labToLch ⟨L, a, b⟩).c2 = hueFromCartesian a b := by
+  refine ⟨rfl, ?_, rfl⟩
+  simp only [labToLch, RealScalar.hypot_eq, Spec.Cie.chroma]; congr 1; ring
+
+theorem luvToLchuv_eq_spec (L u v : ℝ) :
+    (luvToLchuv ⟨L, u, v⟩).c0 = L ∧ (luvToLchuv ⟨L, u, v⟩).c1 = Spec.Cie.chroma u v ∧ (luvToLchuv ⟨L, u, v⟩).c2 = hueFromCartesian u v := by
+  refine ⟨rfl, ?_, rfl⟩
+  simp only [luvToLchuv, RealScalar.hypot_eq, Spec.Cie.chroma]; congr 1; ring
+
+/-- **Lch → Lab = CIE 15** for `C ≥ 0`: `a = C cos h`, `b = C sin h` -/
+theorem lchToLab_eq_spec (L C h : ℝ) (hC : 0 ≤ C) :
+    lchToLab ⟨L, C, h⟩ = ⟨L, (Spec.Cie.cartesian C h).1, (Spec.Cie.cartesian C h).2⟩ := by
+  simp only [lchToLab, Spec.Cie.cartesian, RealScalar.degToRad_eq, RealScalar.max_eq, RealScalar.cos_eq, RealScalar.sin_eq]
+  have : max C (0.0 : ℝ) = C := by norm_num; exact hC
+  rw [this, mul_div_assoc]; congr 1 <;> ring
+
+theorem lchuvToLuv_eq_spec (L C h : ℝ) (hC : 0 ≤ C) :
+    lchuvToLuv ⟨L, C, h⟩ = ⟨L, (Spec.Cie.cartesian C h).1, (Spec.Cie.cartesian C h).2⟩ := by
+  simp only [lchuvToLuv, Spec.Cie.cartesian, RealScalar.degToRad_eq, RealScalar.max_eq, RealScalar.cos_eq, RealScalar.sin_eq]
+  have : max C (0.0 : ℝ) = C := by norm_num; exact hC
+  rw [this, mul_div_assoc]
+
+/-- negative chroma is clamped to zero (`chroma.max(0)`): the colour collapses onto the neutral axis -/
+theorem lchToLab_neg_chroma (L C h : ℝ) (hC : C ≤ 0) : lchToLab ⟨L, C, h⟩ = ⟨L, 0, 0⟩ := by
+  simp only [lchToLab, RealScalar.max_eq]
+  have : max C (0.0 : ℝ) = 0 := by norm_num; exact hC
+  rw [this]; simp
+
+
+/-! ### Xyz ↔ Luv -/
+
+theorem eqv_zero_iff (d : ℝ) : Scalar.eqv d (0.0 : ℝ) ↔ d = 0 := by
+  unfold Scalar.eqv; constructor
+  · rintro ⟨h1, h2⟩; norm_num at h1 h2; linarith
+  · rintro rfl; norm_num
+
+/-- the lightness expression of `xyzToLuv` -/
+noncomputable def luvL (yR : ℝ) : ℝ :=
+  if (cube (Scalar.const (6.0 / 29.0)) : ℝ) < yR then 116.0 * Scalar.powf yR (Scalar.const (1.0 / 3.0)) - 16.0 else cube (Scalar.const (29.0 / 3.0)) * yR
+
+theorem luvL_eq_spec (yR : ℝ) : luvL yR = Spec.Cie.lightness yR := by
+  unfold luvL Spec.Cie.lightness
+  simp only [cube_eq, RealScalar.const_eq, RealScalar.eval_div, RealScalar.eval_ofSci, RealScalar.powf_eq]
+  by_cases h : (6 / 29 : ℝ) ^ 3 < yR
+  · rw [if_pos (by norm_num at h ⊢; linarith), if_pos h]; norm_num
+  · rw [if_neg (by norm_num at h ⊢; linarith), if_neg h]; norm_num
+
+/-- value of the non-black branch -/
+theorem xyzToLuv_of_ne (w c : V3 ℝ) (hd : c.c0 + 15 * c.c1 + 3 * c.c2 ≠ 0) :
+    xyzToLuv w c =
+      ⟨luvL (c.c1 / w.c1),
+       13 * luvL (c.c1 / w.c1) * (4 * c.c0 * (1 / (c.c0 + 15 * c.c1 + 3 * c.c2)) - 4 * w.c0 * (1 / (w.c0 + 15 * w.c1 + 3 * w.c2))),
+       13 * luvL (c.c1 / w.c1) * (9 * c.c1 * (1 / (c.c0 + 15 * c.c1 + 3 * c.c2)) - 9 * w.c1 * (1 / (w.c0 + 15 * w.c1 + 3 * w.c2)))⟩ := by
+  have hd' : ¬ Scalar.eqv (c.c0 + 15.0 * c.c1 + 3.0 * c.c2) (0.0 : ℝ) := by
+    rw [eqv_zero_iff]; norm_num; exact hd
+  unfold xyzToLuv
+  simp only [if_neg hd', recip_eq]
+  unfold luvL
+  norm_num
+
+/-- black (zero denominator): the early return -/
+theorem xyzToLuv_of_zero (w c : V3 ℝ) (hd : c.c0 + 15 * c.c1 + 3 * c.c2 = 0) : xyzToLuv w c = ⟨0, 0, 0⟩ := by
+  have hd' : Scalar.eqv (c.c0 + 15.0 * c.c1 + 3.0 * c.c2) (0.0 : ℝ) := by
+    rw [eqv_zero_iff]; norm_num; exact hd
+  unfold xyzToLuv
+  simp only [if_pos hd']; norm_num
+
+/-- **Xyz → Luv = CIE 15 §8.2.2** wherever the chromaticity `u′, v′` is defined (`X + 15Y + 3Z ≠ 0`) -/
+theorem xyzToLuv_eq_spec (Xn Yn Zn X Y Z : ℝ) (hd : X + 15 * Y + 3 * Z ≠ 0) :
+    xyzToLuv ⟨Xn, Yn, Zn⟩ ⟨X, Y, Z⟩ =
+      ⟨(Spec.Cie.luv Xn Yn Zn X Y Z).1, (Spec.Cie.luv Xn Yn Zn X Y Z).2.1, (Spec.Cie.luv Xn Yn Zn X Y Z).2.2⟩ := by
+  rw [xyzToLuv_of_ne _ _ hd]
+  simp only [Spec.Cie.luv, Spec.Cie.uPrime, Spec.Cie.vPrime, luvL_eq_spec]
+  congr 1 <;> ring
+
+/-- the luminance expression of `luvToXyz` (before the multiplication by `Yn`) -/
+noncomputable def luvY (L : ℝ) : ℝ :=
+  if (8.0 : ℝ) < L then cube ((L + 16.0) * recip 116.0) else L * recip (cube (Scalar.const (29.0 / 3.0)))
+
+theorem luvY_eq (L : ℝ) : luvY L = if L > 8 then ((L + 16) / 116) ^ 3 else L * (3 / 29 : ℝ) ^ 3 := by
+  unfold luvY
+  simp only [cube_eq, recip_eq, RealScalar.const_eq, RealScalar.eval_div, RealScalar.eval_ofSci]
+  by_cases h : (8 : ℝ) < L
+  · rw [if_pos (by norm_num; exact h), if_pos h]; norm_num; ring
+  · rw [if_neg (by norm_num; exact not_lt.mp h), if_neg h]; norm_num
+
+/-- value above the cutoff `L ≥ 1e-5` -/
+theorem luvToXyz_of_ge (w c : V3 ℝ) (hL : ¬ c.c0 < 1e-5) :
+    luvToXyz w c =
+      ⟨luvY c.c0 * w.c1 * 2.25 * (c.c1 / (13 * c.c0) + 4 * w.c0 * (1 / (w.c0 + 15 * w.c1 + 3 * w.c2))) / (c.c2 / (13 * c.c0) + 9 * w.c1 * (1 / (w.c0 + 15 * w.c1 + 3 * w.c2))),
+       luvY c.c0 * w.c1,
+       luvY c.c0 * w.c1 * (3 - 0.75 * (c.c1 / (13 * c.c0) + 4 * w.c0 * (1 / (w.c0 + 15 * w.c1 + 3 * w.c2))) - 5 * (c.c2 / (13 * c.c0) + 9 * w.c1 * (1 / (w.c0 + 15 * w.c1 + 3 * w.c2)))) / (c.c2 / (13 * c.c0) + 9 * w.c1 * (1 / (w.c0 + 15 * w.c1 + 3 * w.c2)))⟩ := by
+  unfold luvToXyz
+  simp only [if_neg hL, recip_eq]
+  unfold luvY
+  norm_num [recip_eq]
+
+/-- below the cutoff the code returns black (CIE 15 has no cutoff: there `Y = Yn·L·(3/29)³ ≤ 1.2e-8·Yn`) -/
+theorem luvToXyz_of_lt (w c : V3 ℝ) (hL : c.c0 < 1e-5) : luvToXyz w c = ⟨0, 0, 0⟩ := by
+  unfold luvToXyz
+  simp only [if_pos hL]; norm_num
+
+/-- **Luv → Xyz = CIE 15 reverse transformation** for `L ≥ 1e-5` -/
+theorem luvToXyz_eq_spec (Xn Yn Zn L u v : ℝ) (hL : 1e-5 ≤ L) :
+    luvToXyz ⟨Xn, Yn, Zn⟩ ⟨L, u, v⟩ =
+      ⟨(Spec.Cie.xyzOfLuv Xn Yn Zn L u v).1, (Spec.Cie.xyzOfLuv Xn Yn Zn L u v).2.1, (Spec.Cie.xyzOfLuv Xn Yn Zn L u v).2.2⟩ := by
+  rw [luvToXyz_of_ge _ _ (not_lt.mpr hL)]
+  simp only [Spec.Cie.xyzOfLuv, Spec.Cie.uPrime, Spec.Cie.vPrime, luvY_eq]
+  have e1 : (4 : ℝ) * Xn * (1 / (Xn + 15 * Yn + 3 * Zn)) = 4 * Xn / (Xn + 15 * Yn + 3 * Zn) := by ring
+  have e2 : (9 : ℝ) * Yn * (1 / (Xn + 15 * Yn + 3 * Zn)) = 9 * Yn / (Xn + 15 * Yn + 3 * Zn) := by ring
+  rw [e1, e2]
+  generalize (if L > 8 then ((L + 16) / 116) ^ 3 else L * (3 / 29 : ℝ) ^ 3) = yy
+  generalize u / (13 * L) + 4 * Xn / (Xn + 15 * Yn + 3 * Zn) = up
+  generalize v / (13 * L) + 9 * Yn / (Xn + 15 * Yn + 3 * Zn) = vp
+  by_cases hv : vp = 0
+  · subst hv; simp; ring
+  · congr 1
+    · field_simp; ring
+    · ring
+    · field_simp; ring
+
+
+/-! ### HSLuv -/
+
+/-- the extracted constants are the reference's: `m`, `kappa`, `epsilon` digit for digit -/
+theorem hsluv_constants :
+    (M3.ofK Gen.Mat.hsluvM : M3 ℝ) = ⟨Spec.Cie.hsluvM 0 0, Spec.Cie.hsluvM 0 1, Spec.Cie.hsluvM 0 2, Spec.Cie.hsluvM 1 0, Spec.Cie.hsluvM 1 1,
+      Spec.Cie.hsluvM 1 2, Spec.Cie.hsluvM 2 0, Spec.Cie.hsluvM 2 1, Spec.Cie.hsluvM 2 2⟩ ∧
+    (Scalar.const Gen.Mat.hsluvKappa : ℝ) = Spec.Cie.hsluvKappa ∧ (Scalar.const Gen.Mat.hsluvEpsilon : ℝ) = Spec.Cie.hsluvEpsilon := by
+  refine ⟨?_, ?_, ?_⟩
+  · simp only [Gen.Mat.hsluvM, M3.ofK, Spec.Cie.hsluvM, RealScalar.const_eq, RealScalar.eval_neg, RealScalar.eval_ofSci]
+  · simp only [Gen.Mat.hsluvKappa, Spec.Cie.hsluvKappa, RealScalar.const_eq, RealScalar.eval_ofSci]
+  · simp only [Gen.Mat.hsluvEpsilon, Spec.Cie.hsluvEpsilon, RealScalar.const_eq, RealScalar.eval_ofSci]
+
+/-- the code's `sub2` -/
+theorem sub2_eq_spec (l : ℝ) :
+    (if (Scalar.const Gen.Mat.hsluvEpsilon : ℝ) < cube (l + 16.0) / 1560896.0 then cube (l + 16.0) / 1560896.0 else l / Scalar.const Gen.Mat.hsluvKappa)
+      = Spec.Cie.sub2 l := by
+  rw [hsluv_constants.2.1, hsluv_constants.2.2, cube_eq]
+  unfold Spec.Cie.sub2
+  norm_num
+
+theorem boundaryLine_eq_spec (l t : ℝ) (c : Fin 3) :
+    boundaryLine (Spec.Cie.hsluvM c 0) (Spec.Cie.hsluvM c 1) (Spec.Cie.hsluvM c 2) l (Spec.Cie.sub2 l) t
+      = ⟨(Spec.Cie.bound l c t).1, (Spec.Cie.bound l c t).2⟩ := by
+  unfold boundaryLine Spec.Cie.bound
+  norm_num
+
+/-- **`LuvBounds::from_lightness` = the reference's `getBounds`** -/
+theorem luvBounds_eq_spec (l : ℝ) :
+    (luvBounds l : List (BoundaryLine ℝ)) = (Spec.Cie.bounds l).map fun b => ⟨b.1, b.2⟩ := by
+  unfold luvBounds
+  simp only [sub2_eq_spec, hsluv_constants.1, Spec.Cie.bounds, List.map]
+  have z : (0.0 : ℝ) = 0 := by norm_num
+  have o : (1.0 : ℝ) = 1 := by norm_num
+  rw [z, o]
+  simp only [boundaryLine_eq_spec l 0, boundaryLine_eq_spec l 1]
+
+/-- one step of the minimisation: where the code's `|denom| > 1e-6` filter passes, it is the reference's step -/
+theorem chromaStep_eq_spec (θ acc : ℝ) (b : ℝ × ℝ) (hden : 1e-6 < |Real.sin θ - b.1 * Real.cos θ|) :
+    chromaStep θ acc ⟨b.1, b.2⟩ = if Spec.Cie.rayLength θ b ≥ 0 then min acc (Spec.Cie.rayLength θ b) else acc := by
+  unfold chromaStep Spec.Cie.rayLength
+  simp only [RealScalar.sin_eq, RealScalar.cos_eq, RealScalar.abs_eq]
+  rw [if_pos (by norm_num at hden ⊢; exact hden)]
+  by_cases h0 : b.2 / (Real.sin θ - b.1 * Real.cos θ) ≥ 0
+  · rw [if_pos h0]
+    by_cases h1 : b.2 / (Real.sin θ - b.1 * Real.cos θ) < acc
+    · rw [if_pos ⟨by norm_num; exact h0, h1⟩, min_eq_right h1.le]
+    · rw [if_neg (fun h => h1 h.2), min_eq_left (not_lt.mp h1)]
+  · rw [if_neg h0, if_neg (fun h => h0 (by have := h.1; norm_num at this; exact this))]
+
+/-- **`max_chroma_at_hue` = the reference's `maxChromaForLH`** whenever no boundary line is (numerically) parallel to the ray,
+    i.e. the code's extra filter `|sin θ − slope·cos θ| > 1e-6` (absent from the reference) does not fire -/
+theorem maxChroma_eq_spec (l h : ℝ)
+    (hden : ∀ b ∈ Spec.Cie.bounds l, 1e-6 < |Real.sin (h / 360 * Real.pi * 2) - b.1 * Real.cos (h / 360 * Real.pi * 2)|) :
+    maxChroma l h = Spec.Cie.maxChromaForLH l h := by
+  unfold maxChroma maxChromaAtHue Spec.Cie.maxChromaForLH
+  simp only [RealScalar.up_eq, RealScalar.down_eq, RealScalar.degToRad_eq, luvBounds_eq_spec]
+  have eθ : h * (Real.pi / 180) = h / 360 * Real.pi * 2 := by ring
+  rw [eθ]
+  generalize h / 360 * Real.pi * 2 = θ at hden ⊢
+  have e0 : (f64Max : ℝ) = 1.7976931348623157e308 := rfl
+  rw [e0]
+  generalize (1.7976931348623157e308 : ℝ) = acc
+  generalize Spec.Cie.bounds l = bs at hden ⊢
+  induction bs generalizing acc with
+  | nil => rfl
+  | cons b bs ih =>
+    simp only [List.map, List.foldl]
+    rw [chromaStep_eq_spec θ acc b (hden b (List.mem_cons_self ..))]
+    exact ih _ (fun b' hb' => hden b' (List.mem_cons_of_mem _ hb'))
+
+
+/- Full-strength statement (NOT provable on the unchanged tree — suspected defect D5, and the extra `1e-6` filter):
+     ∀ L ∈ [0,100], C, H:  lchuvToHsluv ⟨L, C, H⟩ = Spec.Cie.lchToHsluv L C H   and   hsluvToLchuv ⟨H, S, L⟩ = Spec.Cie.hsluvToLch H S L.
+   The code has neither of the reference's guards (`L > 99.9999999 ⇒ S = 0`, `L < 1e-8 ⇒ S = 0`); see `C01Cie.maxChroma_zero_at_L0`
+   for the kernel-checked witness that the divisor vanishes at `L = 0`.  Proved: equality between the guards, where no boundary line
+   is numerically parallel to the hue ray. -/
+
+/-- **Lchuv → Hsluv = HSLuv reference `lchToHsluv`** for `1e-8 ≤ L ≤ 99.9999999` -/
+theorem lchuvToHsluv_eq_spec_partial (L C H : ℝ) (h0 : 1e-8 ≤ L) (h1 : L ≤ 99.9999999)
+    (hden : ∀ b ∈ Spec.Cie.bounds L, 1e-6 < |Real.sin (H / 360 * Real.pi * 2) - b.1 * Real.cos (H / 360 * Real.pi * 2)|) :
+    lchuvToHsluv ⟨L, C, H⟩ = ⟨(Spec.Cie.lchToHsluv L C H).1, (Spec.Cie.lchToHsluv L C H).2.1, (Spec.Cie.lchToHsluv L C H).2.2⟩ := by
+  unfold Spec.Cie.lchToHsluv
+  rw [if_neg (not_lt.mpr h1), if_neg (not_lt.mpr (by norm_num at h0 ⊢; exact h0))]
+  simp only [lchuvToHsluv, maxChroma_eq_spec L H hden]
+  congr 1; norm_num
+
+/-- **Hsluv → Lchuv = HSLuv reference `hsluvToLch`** for `1e-8 ≤ L ≤ 99.9999999` -/
+theorem hsluvToLchuv_eq_spec_partial (H S L : ℝ) (h0 : 1e-8 ≤ L) (h1 : L ≤ 99.9999999)
+    (hden : ∀ b ∈ Spec.Cie.bounds L, 1e-6 < |Real.sin (H / 360 * Real.pi * 2) - b.1 * Real.cos (H / 360 * Real.pi * 2)|) :
+    hsluvToLchuv ⟨H, S, L⟩ = ⟨(Spec.Cie.hsluvToLch H S L).1, (Spec.Cie.hsluvToLch H S L).2.1, (Spec.Cie.hsluvToLch H S L).2.2⟩ := by
+  unfold Spec.Cie.hsluvToLch
+  rw [if_neg (not_lt.mpr h1), if_neg (not_lt.mpr (by norm_num at h0 ⊢; exact h0))]
+  simp only [hsluvToLchuv, maxChroma_eq_spec L H hden]
+  congr 1; norm_num; ring
+
+/-- non-vacuity: mid lightness is between the guards -/
+example : (1e-8 : ℝ) ≤ 50 ∧ (50 : ℝ) ≤ 99.9999999 := by norm_num
+
+/-! ### Xyz ↔ Lms -/
+
+theorem coneMatrix_bradford : coneMatrix? "Bradford" = some ((Gen.Mat.coneMatrices.getD 0 default).2.1, (Gen.Mat.coneMatrices.getD 0 default).2.2) := by rfl
+theorem coneMatrix_vonKries : coneMatrix? "VonKries" = some ((Gen.Mat.coneMatrices.getD 2 default).2.1, (Gen.Mat.coneMatrices.getD 2 default).2.2) := by rfl
+theorem coneMatrix_unit : coneMatrix? "UnitMatrix" = some ((Gen.Mat.coneMatrices.getD 1 default).2.1, (Gen.Mat.coneMatrices.getD 1 default).2.2) := by rfl
+
+/-- **Xyz → Lms (Bradford) = the published Bradford matrix** applied to the tristimulus vector -/
+theorem xyzToLms_bradford_eq_spec (x y z : ℝ) :
+    xyzToLms (Gen.Mat.coneMatrices.getD 0 default).2.1 ⟨x, y, z⟩ =
+      ⟨Spec.Cie.bradford 0 0 * x + Spec.Cie.bradford 0 1 * y + Spec.Cie.bradford 0 2 * z,
+       Spec.Cie.bradford 1 0 * x + Spec.Cie.bradford 1 1 * y + Spec.Cie.bradford 1 2 * z,
+       Spec.Cie.bradford 2 0 * x + Spec.Cie.bradford 2 1 * y + Spec.Cie.bradford 2 2 * z⟩ := by
+  simp only [xyzToLms, Gen.Mat.coneMatrices, List.getD_cons_zero, M3.ofK, M3.mulVec, Spec.Cie.bradford, RealScalar.const_eq,
+    RealScalar.eval_neg, RealScalar.eval_ofSci]
+  congr 1 <;> norm_num
+
+theorem xyzToLms_vonKries_eq_spec (x y z : ℝ) :
+    xyzToLms (Gen.Mat.coneMatrices.getD 2 default).2.1 ⟨x, y, z⟩ =
+      ⟨Spec.Cie.vonKries 0 0 * x + Spec.Cie.vonKries 0 1 * y + Spec.Cie.vonKries 0 2 * z,
+       Spec.Cie.vonKries 1 0 * x + Spec.Cie.vonKries 1 1 * y + Spec.Cie.vonKries 1 2 * z,
+       Spec.Cie.vonKries 2 0 * x + Spec.Cie.vonKries 2 1 * y + Spec.Cie.vonKries 2 2 * z⟩ := by
+  simp only [xyzToLms, Gen.Mat.coneMatrices, List.getD_cons_succ, List.getD_cons_zero, M3.ofK, M3.mulVec, Spec.Cie.vonKries, RealScalar.const_eq,
+    RealScalar.eval_neg, RealScalar.eval_ofSci]
+  congr 1 <;> norm_num
+
+/-- XYZ scaling: the unit matrix is the identity in both directions, exactly -/
+theorem xyzToLms_unit (c : V3 ℝ) : xyzToLms (Gen.Mat.coneMatrices.getD 1 default).2.1 c = c ∧ lmsToXyz (Gen.Mat.coneMatrices.getD 1 default).2.2 c = c := by
+  obtain ⟨x, y, z⟩ := c
+  simp only [xyzToLms, lmsToXyz, Gen.Mat.coneMatrices, List.getD_cons_succ, List.getD_cons_zero, M3.ofK, M3.mulVec, RealScalar.const_eq,
+    RealScalar.eval_ofSci]
+  constructor <;> (congr 1 <;> norm_num)
+
+
+
+/-- **below the cutoff** `0 ≤ L < 1e-5` the code returns black where CIE 15 gives `Y = Yn·L·(3/29)³`: the deviation is at most `1.2e-8·|Yn|` -/
+theorem luvToXyz_below_cutoff (Xn Yn Zn L u v : ℝ) (h0 : 0 ≤ L) (h1 : L < 1e-5) :
+    luvToXyz ⟨Xn, Yn, Zn⟩ ⟨L, u, v⟩ = ⟨0, 0, 0⟩ ∧ |(Spec.Cie.xyzOfLuv Xn Yn Zn L u v).2.1 - 0| ≤ 1.2e-8 * |Yn| := by
+  refine ⟨luvToXyz_of_lt _ _ h1, ?_⟩
+  have h8 : ¬ L > 8 := by norm_num at h1 ⊢; linarith
+  simp only [Spec.Cie.xyzOfLuv, if_neg h8, sub_zero]
+  rw [abs_mul, mul_comm]
+  apply mul_le_mul_of_nonneg_right _ (abs_nonneg _)
+  rw [abs_of_nonneg (by positivity)]
+  norm_num at h1 ⊢; linarith
+
+example : (0 : ℝ) ≤ 5e-6 ∧ (5e-6 : ℝ) < 1e-5 := by norm_num
+
+/-! ### white points and the neutral axis (shared with C14) -/
+
+theorem find_D65 : Gen.Mat.whitePoints.find? (·.1 == "D65") = some ("D65", [(0.95047 : K), (1.0 : K), (1.08883 : K)]) := by rfl
+theorem find_D50 : Gen.Mat.whitePoints.find? (·.1 == "D50") = some ("D50", [(0.96422 : K), (1.0 : K), (0.82521 : K)]) := by rfl
+theorem find_E : Gen.Mat.whitePoints.find? (·.1 == "E") = some ("E", [(1.0 : K), (1.0 : K), (1.0 : K)]) := by rfl
+theorem find_A : Gen.Mat.whitePoints.find? (·.1 == "A") = some ("A", [(1.09850 : K), (1.0 : K), (0.35585 : K)]) := by rfl
+
+/-- the extracted white points the harness exercises are the published CIE tristimulus values (2° observer, Y = 1) -/
+theorem whitePoints_published :
+    (Color.whitePoint "D65" : V3 ℝ) = ⟨0.95047, 1, 1.08883⟩ ∧ (Color.whitePoint "D50" : V3 ℝ) = ⟨0.96422, 1, 0.82521⟩ ∧
+    (Color.whitePoint "E" : V3 ℝ) = ⟨1, 1, 1⟩ ∧ (Color.whitePoint "A" : V3 ℝ) = ⟨1.09850, 1, 0.35585⟩ := by
+  unfold Color.whitePoint
+  rw [find_D65, find_D50, find_E, find_A]
+  simp only [Color.v3OfK, RealScalar.const_eq, RealScalar.eval_ofSci]
+  norm_num
+
+/-- **neutrals stay neutral (L\*a\*b\*)**: every multiple `g·white` has `a* = b* = 0` exactly; `L* = 116 f(g) − 16` -/
+theorem xyzToLab_neutral (wp : V3 ℝ) (g : ℝ) (h0 : wp.c0 ≠ 0) (h1 : wp.c1 ≠ 0) (h2 : wp.c2 ≠ 0) :
+    xyzToLab wp ⟨g * wp.c0, g * wp.c1, g * wp.c2⟩ = ⟨labF g * 116 - 16, 0, 0⟩ := by
+  unfold xyzToLab
+  simp only [mul_div_assoc, div_self h0, div_self h1, div_self h2, mul_one]
+  congr 1 <;> norm_num
+
+/-- white has `L* = 100` -/
+theorem labF_one : labF (1 : ℝ) = 1 := by
+  rw [labF_hi (by norm_num), Real.one_rpow]
+
+theorem xyzToLab_white (wp : V3 ℝ) (h0 : wp.c0 ≠ 0) (h1 : wp.c1 ≠ 0) (h2 : wp.c2 ≠ 0) : xyzToLab wp wp = ⟨100, 0, 0⟩ := by
+  have := xyzToLab_neutral wp 1 h0 h1 h2
+  simp only [one_mul] at this
+  rw [this, labF_one]; congr 1; norm_num
+
+/-- **neutrals stay neutral (L\*u\*v\*)**: `u* = v* = 0` exactly for every non-zero multiple of the white point -/
+theorem xyzToLuv_neutral (wp : V3 ℝ) (g : ℝ) (hg : g ≠ 0) (hd : wp.c0 + 15 * wp.c1 + 3 * wp.c2 ≠ 0) :
+    (xyzToLuv wp ⟨g * wp.c0, g * wp.c1, g * wp.c2⟩).c1 = 0 ∧ (xyzToLuv wp ⟨g * wp.c0, g * wp.c1, g * wp.c2⟩).c2 = 0 := by
+  have hd' : g * wp.c0 + 15 * (g * wp.c1) + 3 * (g * wp.c2) ≠ 0 := by
+    have : g * wp.c0 + 15 * (g * wp.c1) + 3 * (g * wp.c2) = g * (wp.c0 + 15 * wp.c1 + 3 * wp.c2) := by ring
+    rw [this]; exact mul_ne_zero hg hd
+  rw [xyzToLuv_of_ne wp _ hd']
+  simp only
+  have e : g * wp.c0 + 15 * (g * wp.c1) + 3 * (g * wp.c2) = g * (wp.c0 + 15 * wp.c1 + 3 * wp.c2) := by ring
+  rw [e]
+  constructor
+  · have : 4 * (g * wp.c0) * (1 / (g * (wp.c0 + 15 * wp.c1 + 3 * wp.c2))) - 4 * wp.c0 * (1 / (wp.c0 + 15 * wp.c1 + 3 * wp.c2)) = 0 := by
+      field_simp; ring
+    rw [this, mul_zero]
+  · have : 9 * (g * wp.c1) * (1 / (g * (wp.c0 + 15 * wp.c1 + 3 * wp.c2))) - 9 * wp.c1 * (1 / (wp.c0 + 15 * wp.c1 + 3 * wp.c2)) = 0 := by
+      field_simp; ring
+    rw [this, mul_zero]
+
+example : (0.95047 : ℝ) + 15 * 1 + 3 * 1.08883 ≠ 0 := by norm_num
 end C02Cie
